@@ -25,6 +25,11 @@ def sc(s):
     return V.str_const(s)
 
 
+def _ts(st, pid):
+    """thread_state attribute of process pid (string code)"""
+    return z3.Select(st.heap_arr("thread_state"), pid)
+
+
 # ---------------------------------------------------------------------------
 # counting: sum(<bool expr> for x in list)  (A-count: 0 <= count <= len; counts of disjoint predicates add up to <= len)
 _CNT = {}
@@ -53,6 +58,16 @@ def reduce_genexp(lib, ex, name, node, st):
         c = z3.Int("count!%s" % _n())
         s2 = s.fork()
         s2.assume(z3.And(c >= 0, c <= lst.len))
+        # cardinality facts for very short lists (exact): no element, one element
+        s2.assume(z3.Implies(lst.len == 0, c == 0))
+        if isinstance(g.target, ast.Name):
+            try:
+                s3 = s2.fork()
+                s3.loc[g.target.id] = lst.at(z3.IntVal(0))
+                t0 = V.truth(ex.eval_pure(ge.elt, s3, node.lineno))
+                s2.assume(z3.Implies(lst.len == 1, c == z3.If(t0, 1, 0)))
+            except Unsupported:
+                pass
         prev = s2.ghost.setdefault("counts", [])
         # two different comparisons of the same attribute with different constants are disjoint predicates
         for (k0, c0, lenterm) in prev:
@@ -306,7 +321,14 @@ def install(lib):
         return [Clause("counts-in-range", lambda c: z3.And(c.res.items[0].t >= 0, c.res.items[1].t >= 0,
                                                            c.res.items[0].t + c.res.items[1].t <= cap), ("C17", "C08")),
                 Clause("counts-add-up-to-the-live-workers", lambda c: c.res.items[0].t + c.res.items[1].t ==
-                       c.old.f["worker_thread_list"].len, ("C17",))]
+                       c.old.f["worker_thread_list"].len, ("C17",)),
+                # exact for zero and one live worker (all that Splitter/Combiner, work_capacity 1, ever have)
+                Clause("counts-exact-for-no-worker", lambda c: z3.Implies(
+                    c.old.f["worker_thread_list"].len == 0, z3.And(c.res.items[0].t == 0, c.res.items[1].t == 0)), ("C17",)),
+                Clause("counts-exact-for-one-worker", lambda c: z3.Implies(c.old.f["worker_thread_list"].len == 1, z3.And(
+                    c.res.items[0].t == z3.If(_ts(c.old, c.old.f["worker_thread_list"].at(z3.IntVal(0)).t) == sc("PROCESSING_STATE"), 1, 0),
+                    c.res.items[1].t == z3.If(_ts(c.old, c.old.f["worker_thread_list"].at(z3.IntVal(0)).t) == sc("BLOCKED_STATE"), 1, 0))),
+                    ("C17",))]
     C["Machine"]["_count_worker_state"] = FnContract(
         "_count_worker_state", [], post=cws_post,
         excs=[ExcCase("AssertionError", lambda c: c.old.f["worker_thread_list"].len > c.old.f["work_capacity"].t,
